@@ -278,6 +278,10 @@ func c13LateResetPlain(c *ctx, idx, marker int, confirm2 bool, settle time.Durat
 	good, why := c13LateVerdict(&full, cOut, sIn, len(full.realC), len(full.realS), 2*time.Second)
 	desc := fmt.Sprintf("late reset (slow server) %s #%d", s.name, idx)
 	c.note(true, desc)
+	if !good && !ok { // the script itself lost step before the verdict: not judged
+		c.count("late_reset:plain_inconclusive")
+		return
+	}
 	if !good {
 		c.violate("relay-late-reset-"+s.name, "a reset request of the input reader decided during transfer 1 (end marker seen while transferring, then blocked behind a slow server) "+
 			"was executed after the trigger of transfer 2: "+why, c13LateDetail(&full, cOut, sIn, ""))
